@@ -3,6 +3,7 @@ package netprops
 import (
 	"strings"
 	"testing"
+	"time"
 
 	"pgregory.net/rapid"
 
@@ -171,6 +172,61 @@ func TestC12Pure(t *testing.T) {
 		s := C12Pure{
 			Rules:   rapid.SliceOfN(genFWRule(clean), 0, 6).Draw(t, "rules"),
 			Packets: rapid.SliceOfN(genFWPacket(), 12, 12).Draw(t, "packets"),
+		}
+		st.Judge(t, s, r.Run(s))
+	})
+}
+
+func TestC12Mesh(t *testing.T) {
+	st := vx.NewStats("C12", "mesh", "a real chain of three nodes named from the colliding name alphabet, each with a generated valid rule list (0-4 rules, literal and regex fields, all three actions); 1-16 datagrams between bound services of any two nodes "+
+		"(some injected by a scripted peer with source service 'unreach'); reference model: the packet meets the rule lists of origin, transit and destination in turn, the first matching rule decides; a reject sends a 'blocked by firewall' notice back, "+
+		"which is itself filtered on its way; oracle: delivered / notice at the sending socket from the rejecting node / silence exactly as the model says; non-trivial = some packet is stopped at origin, transit or destination; distinct by canonical JSON")
+	defer st.Flush()
+	r := &vx.Runner{Name: "C12.mesh", Timeout: 150 * time.Second, Recycle: 40}
+	defer r.Close()
+	rapid.Check(t, func(t *rapid.T) {
+		var s C12Mesh
+		perm := rapid.Permutation([]string{"a", "ab", "abc", "b", "foo", "bar", "xbar", "foobaz", "aXb"}).Draw(t, "names")
+		copy(s.Names[:], perm[:3])
+		// rules aimed at this chain's names and services (so that they actually match some traffic), more of them on the
+		// middle node so that transit decisions occur
+		meshRule := rapid.Custom(func(t *rapid.T) FWRule {
+			r := FWRule{{KeyKind: "str", Key: genCase("action").Draw(t, "ak"), ValKind: "str", Val: rapid.SampledFrom([]string{"accept", "reject", "drop", "drop", "reject"}).Draw(t, "act")}}
+			nodePat := func(label string) string {
+				return rapid.SampledFrom([]string{s.Names[0], s.Names[1], s.Names[2], "/a.*/", "/.*b.*/", "/(foo|bar|xbar)/", "/.*/", "/[a-z]+/", "/" + s.Names[2] + "|" + s.Names[0] + "/"}).Draw(t, label)
+			}
+			svcPat := func(label string) string {
+				return rapid.SampledFrom([]string{"a", "ab", "control", "foo", "bar", "xbar", "foobaz", "echo", "unreach", "/.*bar/", "/foo.*/", "/a|ab/", "/c.*l/", "/.*/"}).Draw(t, label)
+			}
+			n := 0
+			if rapid.Bool().Draw(t, "fn") {
+				r = append(r, FWEntry{KeyKind: "str", Key: "fromnode", ValKind: "str", Val: nodePat("fnp")})
+				n++
+			}
+			if rapid.Bool().Draw(t, "tn") {
+				r = append(r, FWEntry{KeyKind: "str", Key: genCase("tonode").Draw(t, "tnk"), ValKind: "str", Val: nodePat("tnp")})
+				n++
+			}
+			if rapid.Bool().Draw(t, "fs") {
+				r = append(r, FWEntry{KeyKind: "str", Key: "fromservice", ValKind: "str", Val: svcPat("fsp")})
+				n++
+			}
+			if rapid.Bool().Draw(t, "ts") || n == 0 {
+				r = append(r, FWEntry{KeyKind: "str", Key: "ToService", ValKind: "str", Val: svcPat("tsp")})
+			}
+			return r
+		})
+		for i := 0; i < 3; i++ {
+			hi := 3
+			if i == 1 {
+				hi = 5
+			}
+			s.Rules[i] = rapid.SliceOfN(meshRule, 0, hi).Draw(t, "rules")
+		}
+		n := rapid.IntRange(1, 16).Draw(t, "nsends")
+		for i := 0; i < n; i++ {
+			s.Sends = append(s.Sends, C12Send{From: rapid.IntRange(0, 2).Draw(t, "from"), FromSvc: rapid.IntRange(0, 7).Draw(t, "fs"), To: rapid.IntRange(0, 2).Draw(t, "to"),
+				ToSvc: rapid.IntRange(0, 7).Draw(t, "ts"), Forged: rapid.IntRange(0, 5).Draw(t, "forged") == 0})
 		}
 		st.Judge(t, s, r.Run(s))
 	})
